@@ -214,9 +214,15 @@ def _walks(edges, inits, rng, n_walks=None, cover_all=False, maxlen=60):
 
 
 # ------------------------------------------------------------------------------------
-def _scenario(variant, N, S, R, start, length, rng, p_drop, p_dup, p_timeout, shuffle, coded=False, tags=False):
+def _scenario(variant, N, S, R, start, length, rng, p_drop, p_dup, p_timeout, shuffle, coded=False, tags=False, sim_rel=None):
     spa, old = blocks(N, rng, coded=coded, tags=tags)
     rig = RIGS[variant](N, S, R, start, length, spa, old)
+    if sim_rel is not None:
+        # the bundled simulator's own unreliable mode (its `reliability` command): it leaves out segments of its
+        # answers by itself - which is a loss like any other
+        import random as _random
+        _random.seed(rng.random())
+        rig.peer.sim._reliability = sim_rel
     nfaults = 0
     try:
         guard = 0
@@ -457,6 +463,15 @@ def run(ctx):
                            p_drop=rng.choice([0, 0.02, 0.1, 0.3]), p_dup=rng.choice([0, 0.05, 0.3]),
                            p_timeout=rng.choice([0, 0, 0.01]), shuffle=rng.random() < 0.6)
             lg["R"] = r_
+            logs.append(lg)
+    # the simulator in its own unreliable mode, a perfect wire otherwise
+    for variant in ("async", "sync"):
+        for k in range(12 if quick else 150):
+            length = rng.choice([N, 400, 200, 117])
+            start = rng.randrange(0, N - length + 1)
+            lg = _scenario(variant, N, S, 3, start, length, rng, 0, 0, 0, False, sim_rel=rng.choice([0.7, 0.85, 0.93]))
+            lg["R"] = 3
+            lg["sim_unreliable"] = True
             logs.append(lg)
     # fault-free, in order: every length class x boundary starts must succeed
     ff = []
